@@ -19,7 +19,7 @@ nothing is rewritten, or the visit ran on a deep copy).  Branch by branch:
   * obj, on an object: FIRST the defaults (only when `DefaultsSet` is installed, i.e. SkipSettingDefaults is off):
     a property that is absent — or present with value null (`value[propName] == nil`) — and whose schema has a
     non-null default gets it, unless the property is readOnly (and read-only validation is on); a readOnly
-    property that is present and not null is an error; THEN unknown keys need `additionalProperties`, every
+    property whose key is present (null included) is an error; THEN unknown keys need `additionalProperties`, every
     present property is visited with its schema (the injected defaults too), and `required` wants the key to be
     present (or the property to be readOnly);
   * arr: every item is visited;
@@ -124,9 +124,10 @@ def injectDefaults (c : Ctx) : List (String × S) → List (String × J) → Lis
   | [], kvs => kvs
   | (k, s) :: ps, kvs => injectDefaults c ps (injectStep c k s.attr kvs)
 
-/-- "readOnly property in request": some read-only property is present and not null -/
+/-- "readOnly property in request": some read-only property is present — whatever its value, null included
+    (repaired code: the check tests the presence of the key) -/
 def roViolation (c : Ctx) (props : List (String × S)) (kvs : List (String × J)) : Bool :=
-  props.any (fun p => reqRO c p.2.attr && (match lookup p.1 kvs with | some v => !v.isNull | none => false))
+  props.any (fun p => reqRO c p.2.attr && (lookup p.1 kvs).isSome)
 
 def addlOK (addl : Bool) (props : List (String × S)) (kvs : List (String × J)) : Bool :=
   kvs.all (fun kv => addl || (lookup kv.1 props).isSome)
